@@ -49,7 +49,7 @@ def run_verus_unit(pid, u, tier, log):
     defines = set(u.get("defines", []))
     if tier == "thorough":
         defines.add("THOROUGH")
-    meta = unitgen.generate(u["unit"], tpl, outdir, canary=False, defines=defines, subst=u.get("subst"))
+    meta = unitgen.generate(u["unit"], tpl, outdir, canary=False, defines=defines, subst=u.get("subst"), frames=u.get("frames"))
     rl = u.get("rlimit_thorough", u.get("rlimit", 50)) if tier == "thorough" else u.get("rlimit", 50)
     res = verusrun.run_unit(meta, rlimit=rl, extra=u.get("extra"), timeout=u.get("timeout", 1800), threads=u.get("threads", 4))
     res["meta"] = meta
@@ -72,7 +72,7 @@ def run_verus_unit(pid, u, tier, log):
                     res["reason"] = f"vacuity guard: no verification result for contracted function {b['path']}"
         # vacuity guard (b): canary copy must fail, and only in canary-carrying functions
         if u.get("canary") and res["status"] == "verified":
-            cmeta = unitgen.generate(u["unit"], tpl, outdir, canary=True, defines=defines, subst=u.get("subst"))
+            cmeta = unitgen.generate(u["unit"], tpl, outdir, canary=True, defines=defines, subst=u.get("subst"), frames=u.get("frames"))
             cres = verusrun.run_unit(cmeta, rlimit=rl, extra=u.get("extra"), timeout=u.get("timeout", 1800), threads=u.get("threads", 4))
             nfail = len([f for f in cres["failures"] if not f.get("undecided")])
             res["canary"] = {"status": cres["status"], "failed_obligations": [f["obligation"] for f in cres["failures"]][:10]}
